@@ -102,3 +102,11 @@ contract(
     setup=["replies = [spec.env.register_reply(session, 0)]"] + SETUP,
     ensures=["result is d", "d._session == session"], raises_only=["pycomm3.exceptions.CommError"], ensures_exc=["fail_at is not None"],
     props=["C10"])
+
+# an unconnected request on a driver that holds no socket (never opened / closed again): a library exception, nothing else
+for _state, _init in (("fresh", []), ("closed", ["d._sock = t", "d._connection_opened = True", "d._session = 9", "closed = d.close()"])):
+    contract(
+        id=f"lifecycle.unconnected_op.no_socket.{_state}", func="pycomm3.cip_driver.CIPDriver.generic_message",
+        call="d.generic_message(service=0x0e, class_code=1, instance=1, attribute=1, connected=False)",
+        params={}, setup=["replies = [b'']", "fail_at = None"] + SETUP + _init + ["before = len(t.sent)"],
+        ensures=["not bool(result)"], raises_only=LIB, ensures_exc=["len(t.sent) == before"], props=["C10"])
